@@ -1150,17 +1150,23 @@ func (c *Ctx) c17ChangeNotDropped() {
 		n++
 		// some constructProofs call takes those signatures, and its result is saved
 		okU, okS := false, false
-		for _, ci := range Calls(f) {
-			d := c.P.Describe(ci)
-			if d.Name != "wallet.constructProofs" {
+		// in the operation itself or in a helper that is new on this tree, read in its calling context
+		for _, og := range c.OpContexts(f) {
+			if og.Fn.Parent() != nil {
 				continue
 			}
-			if o.Of(d.Args[0]).String() == changeEx.String() {
-				okU = true
-				for _, sv := range c.callsOfWalletDB(f, "SaveProofs") {
-					a := o.Of(c.P.Describe(sv).Args[0])
-					if a.K == "call" && a.Call == ci {
-						okS = true
+			for _, ci := range Calls(og.Fn) {
+				d := c.P.Describe(ci)
+				if d.Name != "wallet.constructProofs" {
+					continue
+				}
+				if og.Of(d.Args[0]).String() == changeEx.String() {
+					okU = true
+					for _, sv := range c.callsOfWalletDB(og.Fn, "SaveProofs") {
+						a := og.Of(c.P.Describe(sv).Args[0])
+						if a.K == "call" && a.Call == ci {
+							okS = true
+						}
 					}
 				}
 			}
